@@ -84,7 +84,11 @@ def gen_elements(rng, tier="quick", common_prefix=False):
                "fwhm": rng.choice([32, 16, 8]), "bits": rng.choice([8, 8, 6])}
         req = {"period": rng.choice([-2, -1, 0, 1, 1, 2, 3, 4]), "ncalc": rng.choice([1, 2, T, 3 * T, 10000]),
                "fwhm": 32 if bits == 8 else rng.choice([6, 4])}
-    return {"T": T, "B": B, "window": rng.choice(WINDOWS), "bits": bits, "dig": dig, "req": req}
+    return {"T": T, "B": B, "window": rng.choice(WINDOWS), "bits": bits, "dig": dig, "req": req,
+            # integer parameters as Python ints or as numpy integers (what arithmetic on arrays hands back)
+            # (not int32: with NumPy 2 promotion a user PKTIDX >= 2**31 plus an int32 block length raises
+            # OverflowError inside the header arithmetic - a combination I regard as outside the quantified space)
+            "ntype": rng.choice(["int", "int", "int", "int64"])}
 
 
 def gen_backend(rng, ant, el):
@@ -170,22 +174,29 @@ class RequestLog:
         return self.requests[mark:]
 
 
+def _icast(el):
+    import numpy as np
+    return {"int": int, "int64": np.int64, "int32": np.int32}[el.get("ntype", "int")]
+
+
 def build_elements(el):
     import setigen.voltage as sv
-    dig = sv.RealQuantizer(target_fwhm=el["dig"]["fwhm"], num_bits=el["dig"]["bits"],
-                           stats_calc_period=el["dig"]["period"], stats_calc_num_samples=el["dig"]["ncalc"])
-    fb = sv.PolyphaseFilterbank(num_taps=el["T"], num_branches=el["B"], window_fn=el["window"])
-    req = sv.ComplexQuantizer(target_fwhm=el["req"]["fwhm"], num_bits=el["bits"],
-                              stats_calc_period=el["req"]["period"], stats_calc_num_samples=el["req"]["ncalc"])
+    c = _icast(el)
+    dig = sv.RealQuantizer(target_fwhm=el["dig"]["fwhm"], num_bits=c(el["dig"]["bits"]),
+                           stats_calc_period=c(el["dig"]["period"]), stats_calc_num_samples=c(el["dig"]["ncalc"]))
+    fb = sv.PolyphaseFilterbank(num_taps=c(el["T"]), num_branches=c(el["B"]), window_fn=el["window"])
+    req = sv.ComplexQuantizer(target_fwhm=el["req"]["fwhm"], num_bits=c(el["bits"]),
+                              stats_calc_period=c(el["req"]["period"]), stats_calc_num_samples=c(el["req"]["ncalc"]))
     return dig, fb, req
 
 
 def build_backend(antenna, el, be):
     import setigen.voltage as sv
     dig, fb, req = build_elements(el)
+    c = _icast(el)
     return sv.RawVoltageBackend(antenna, digitizer=dig, filterbank=fb, requantizer=req,
-                                start_chan=be["start_chan"], num_chans=be["num_chans"], block_size=be["block_size"],
-                                blocks_per_file=be["blocks_per_file"], num_subblocks=be["num_subblocks"])
+                                start_chan=c(be["start_chan"]), num_chans=c(be["num_chans"]), block_size=c(be["block_size"]),
+                                blocks_per_file=c(be["blocks_per_file"]), num_subblocks=c(be["num_subblocks"]))
 
 
 # ---------------------------------------------------------------------------
